@@ -102,6 +102,8 @@ const (
 	OFToSBV  // fp -> signed bv of width W (RTZ); unspecified when out of range
 	OFToUBV  // fp -> unsigned bv (RTZ)
 	OFFromBV // reinterpret IEEE bits as fp
+	OFRound  // fp.roundToIntegral, P0 = rounding mode (0 RTZ, 1 RTN, 2 RTP, 3 RNE)
+	OFAbs
 )
 
 type Term struct {
@@ -890,6 +892,31 @@ func (tt *TermTable) FToUBVRaw(a *Term, w int) *Term {
 	return tt.mk(OFToUBV, BV(w), 0, 0, a)
 }
 
+func (tt *TermTable) FRound(a *Term, mode int) *Term {
+	if a.IsConst() {
+		f := fpConstVal(a)
+		switch mode {
+		case 0:
+			f = math.Trunc(f)
+		case 1:
+			f = math.Floor(f)
+		case 2:
+			f = math.Ceil(f)
+		case 3:
+			f = math.RoundToEven(f)
+		}
+		return tt.FPConst(a.S, f)
+	}
+	return tt.mk(OFRound, a.S, mode, 0, a)
+}
+
+func (tt *TermTable) FAbs(a *Term) *Term {
+	if a.IsConst() {
+		return tt.FPConst(a.S, math.Abs(fpConstVal(a)))
+	}
+	return tt.mk(OFAbs, a.S, 0, 0, a)
+}
+
 func (tt *TermTable) FFromBits(a *Term, s Sort) *Term {
 	if a.IsConst() {
 		return tt.Const(s, a.Val)
@@ -987,6 +1014,12 @@ func (t *Term) Body() string {
 	case OFFromBV:
 		fmt.Fprintf(&sb, "((_ to_fp %s)", fpDims(t.S))
 		refs()
+	case OFRound:
+		sb.WriteString("(fp.roundToIntegral " + [...]string{"RTZ", "RTN", "RTP", "RNE"}[t.P0])
+		refs()
+	case OFAbs:
+		sb.WriteString("(fp.abs")
+		refs()
 	default:
 		n, ok := opNames[t.Op]
 		if !ok {
@@ -1076,6 +1109,10 @@ func (tt *TermTable) rebuild(t *Term, a []*Term) *Term {
 		return tt.IntToFP(a[0], false, t.S)
 	case OFFromBV:
 		return tt.FFromBits(a[0], t.S)
+	case OFRound:
+		return tt.FRound(a[0], t.P0)
+	case OFAbs:
+		return tt.FAbs(a[0])
 	case OFToSBV:
 		f := fpConstVal(a[0])
 		return tt.Const(t.S, uint64(int64(f)))
